@@ -47,6 +47,7 @@ class Injector:
         self.pushes = []
         self.ncmd = 0
         self.before_push = {}    # push index -> callable()
+        self.before_cmd = {}     # command index -> callable()
         self.crash_before = None  # index into remote-mutating ops
         self.crash_after = None
         self.crashed = False
@@ -109,6 +110,13 @@ class Injector:
         cidx = self.ncmd
         self.ncmd += 1
         cmdline = command if isinstance(command, str) else ' '.join(command)
+        hook = self.before_cmd.get(cidx)
+        if hook:
+            self.active = False
+            try:
+                hook()
+            finally:
+                self.active = True
         is_push = bool(PUSH_RE.match(cmdline))
         if not is_push:
             self.ops_all_append(cmdline)
